@@ -64,6 +64,8 @@ type c13Case struct {
 	// Options: how the client set is handed over: one WithKmipVersions option per inner list (minor numbers, in this order).
 	// Empty: a single option listing the set in ascending order.
 	Options [][]int `json:"client_options,omitempty"`
+	// Cluster: the client is created with DialCluster (one address) instead of Dial
+	Cluster bool `json:"dial_cluster,omitempty"`
 }
 
 // optionLayouts returns ways of passing the same set through WithKmipVersions (all equivalent per the option's contract:
@@ -228,7 +230,14 @@ func c13Run(c c13Case) (sig string, err error) {
 	}()
 	var cl *kmipclient.Client
 	var derr error
-	if perr := safely(func() error { cl, derr = kmipclient.Dial("verif", opts...); return nil }); perr != nil {
+	if perr := safely(func() error {
+		if c.Cluster {
+			cl, derr = kmipclient.DialCluster([]string{"verif"}, append(opts, kmipclient.WithRetryTimeout(time.Second))...)
+		} else {
+			cl, derr = kmipclient.Dial("verif", opts...)
+		}
+		return nil
+	}); perr != nil {
 		return "dial-panics", perr
 	}
 	// expected outcome as a pure function of the configuration
@@ -323,7 +332,7 @@ func c13Run(c c13Case) (sig string, err error) {
 func TestC13Negotiation(t *testing.T) {
 	const name = "TestC13Negotiation"
 	rec := evid.New("C13", name, "exhaustive: 31 non-empty client sets x 32 server sets x 6 server behaviours (conformant descending intersection, discovery unsupported, lists versions not offered, unordered list, empty list, the library's own BatchExecutor restricted to the set, also after an earlier client with another set has negotiated with the same executor) without enforcement, "+
-		"plus the same client set handed over through up to five other option layouts (descending, one WithKmipVersions option per version, two halves, highest first with a duplicate, rotated) against the conformant, unordered and library servers, plus 31 x 32 x 5 enforced versions against the conformant server; each followed by two requests and a clone; oracle: pure function of the configuration (highest common version / fallback to 1.0 / failure); "+
+		"plus the same client set handed over through up to five other option layouts (descending, one WithKmipVersions option per version, two halves, highest first with a duplicate, rotated) against the conformant, unordered and library servers, plus clients created with DialCluster against the conformant, discovery-less and library servers, plus 31 x 32 x 5 enforced versions against the conformant server; each followed by two requests and a clone; oracle: pure function of the configuration (highest common version / fallback to 1.0 / failure); "+
 		"non-trivial = the intersection has >= 2 elements, or the server lists a version outside the client's set, or the list is unordered; distinct by case").Attach(t)
 	rec.Exhaustive(true)
 	if rp := evid.LoadReplay(name); rp != nil {
@@ -365,6 +374,12 @@ func TestC13Negotiation(t *testing.T) {
 			// the library's executor after an earlier, differently configured client ({1.1,1.2} resp. {1.1,1.3})
 			for _, prior := range []int{0b00110, 0b01010} {
 				if !run(c13Case{ClientMask: cm, ServerMask: sm, Behaviour: bLibraryExec, Enforced: -1, PriorMask: prior}) {
+					return
+				}
+			}
+			// the other constructor: DialCluster negotiates like Dial
+			for _, b := range []string{bConformant, bUnsupported, bLibraryExec} {
+				if !run(c13Case{ClientMask: cm, ServerMask: sm, Behaviour: b, Enforced: -1, Cluster: true}) {
 					return
 				}
 			}
